@@ -1,10 +1,78 @@
 import KawinV.Proto
-/-! driver verbs for C10 (stub: no verbs yet) -/
+import KawinV.Model.MobMatrix
+import KawinV.Model.DMuDX
+import KawinV.Gen.C10Tracer
+/-! driver verbs for the mobility-matrix / dMudX / interdiffusivity models (Float instance) -/
 namespace KawinV.Drv.C10
-open KawinV.Proto
+open KawinV.Proto KawinV.Mob KawinV.DMu
+
+def fn (a : Array Float) : Nat → Float := fun i => a.getD i 0.0
+def mat (a : Array Float) (cols : Nat) : Nat → Nat → Float := fun i j => if j < cols then a.getD (i * cols + j) 0.0 else 0.0
+def bfn (a : Array Nat) : Nat → Bool := fun i => a.getD i 0 != 0
+def flat (rows cols : Nat) (m : Nat → Nat → Float) : List Float :=
+  (List.range rows).flatMap (fun i => (List.range cols).map (fun j => m i j))
+
+/-- c10.mob  n interst(n) vacPoor X(n) M(n) yVa(n) g(n) → U(n) Usum Mm(n²) J(n) Jsum -/
+def mob : P String := do
+  let n ← nat; let it ← lst nat; let vp ← bool; let X ← flts; let M ← flts; let y ← flts; let g ← flts
+  let it := bfn it.toArray
+  let X := fn X.toArray; let M := fn M.toArray; let y := fn y.toArray; let g := fn g.toArray
+  let Mm := mobMatrixX n it vp X M y
+  let J := flux n Mm g
+  pure s!"{flist ((List.range n).map (ufrac n it X))} {fout (usum n it X)} {flist (flat n n Mm)} {flist ((List.range n).map J)} {fout (substSum n it J)}"
+
+/-- c10.hess  p k n d2g(p²) dg(p) mu(n) jac(k·p) dxdy(n·p) moleA(n) → H(size²) -/
+def hess : P String := do
+  let p ← nat; let k ← nat; let n ← nat
+  let d2g ← flts; let dg ← flts; let mu ← flts; let jac ← flts; let dxdy ← flts; let mole ← flts
+  let size := p + k + 1 + n
+  let H := hessAsm p k n (mat d2g.toArray p) (fn dg.toArray) (fn mu.toArray) (mat jac.toArray p)
+    (mat dxdy.toArray p) (fn mole.toArray)
+  pure (flist (flat size size H))
+
+def optInv (size : Nat) : P (Option (Nat → Nat → Float)) := do
+  let has ← bool
+  let K ← flts
+  pure (if has then some (mat K.toArray size) else none)
+
+/-- c10.dmu  size i0 n ref hasInv K(size²) → ddx(size·(n−1)) dMudX((n−1)²) partial(n²) -/
+def dmu : P String := do
+  let size ← nat; let i0 ← nat; let n ← nat; let ref ← nat
+  let inv ← optInv size
+  let ddx := totalddx size i0 ref inv
+  let tot := dMudX i0 ref ddx
+  let par := partialdMudX i0 (partialddx size i0 inv)
+  pure s!"{flist (flat size (n-1) ddx)} {flist (flat (n-1) (n-1) tot)} {flist (flat n n par)}"
+
+/-- c10.inter  size i0 n ref interst(n) vacPoor X(n) M(n) yVa(n) hasInv K(size²) → Dkj(n²) Dnkj((n−1)²) -/
+def inter : P String := do
+  let size ← nat; let i0 ← nat; let n ← nat; let ref ← nat
+  let it ← lst nat; let vp ← bool; let X ← flts; let M ← flts; let y ← flts
+  let inv ← optInv size
+  let it := bfn it.toArray
+  let X := fn X.toArray; let M := fn M.toArray; let y := fn y.toArray
+  let Dkj := chemDiff n (mobMatrixX n it vp X M y) (partialdMudX i0 (partialddx size i0 inv))
+  let Dn := interdiffX size i0 n ref it vp X M y inv
+  pure s!"{flist (flat n n Dkj)} {flist (flat (n-1) (n-1) Dn)}"
+
+/-- c10.darken  xk xR Mk MR G2 R T → (x_R·RT·M_k + x_k·RT·M_R)·x_k·x_R·G2/(RT) -/
+def darkenV : P String := do
+  let xk ← flt; let xR ← flt; let Mk ← flt; let MR ← flt; let G2 ← flt; let R ← flt; let T ← flt
+  pure (fout (darken xk xR (R * T * Mk) (R * T * MR) (thermoFactor xk xR G2 R T)))
+
+/-- c10.tracer  T c0 m0 c1 m1 c2 m2 → mobility(3) tracer(3)  (generated definitions) -/
+def tracer : P String := do
+  let T ← flt; let c0 ← flt; let m0 ← flt; let c1 ← flt; let m1 ← flt; let c2 ← flt; let m2 ← flt
+  pure s!"{flist (KawinV.Gen.C10.mobility_all T c0 m0 c1 m1 c2 m2)} {flist (KawinV.Gen.C10.tracer_all T c0 m0 c1 m1 c2 m2)}"
 
 def handle (verb : String) : Option (P String) :=
   match verb with
+  | "c10.mob" => some mob
+  | "c10.hess" => some hess
+  | "c10.dmu" => some dmu
+  | "c10.inter" => some inter
+  | "c10.darken" => some darkenV
+  | "c10.tracer" => some tracer
   | _ => none
 
 end KawinV.Drv.C10
